@@ -50,6 +50,32 @@ class PythonMagicNumberAnalyzer(ast.NodeVisitor):
         self.visit(tree)
         return self.numeric_literals
 
+    def defines_constant(self, node: ast.AST) -> bool:
+        """Check if a literal is (part of an arithmetic expression that is) an UPPERCASE constant's value.
+
+        Covers `WEEK_IN_SECONDS = 7 * 24 * 60 * 60`, `MIN_TEMPERATURE = -40` and the annotated
+        form `MAX_RETRIES: int = 12`, none of which has the literal as a direct child of ast.Assign.
+
+        Args:
+            node: The numeric Constant node (must come from the last analysed tree)
+
+        Returns:
+            True if the enclosing assignment defines an UPPERCASE name
+        """
+        current = self.parent_map.get(node)
+        while isinstance(current, (ast.BinOp, ast.UnaryOp)):
+            current = self.parent_map.get(current)
+        if isinstance(current, ast.Assign):
+            targets: list[ast.expr] = current.targets
+        elif isinstance(current, ast.AnnAssign):
+            targets = [current.target]
+        else:
+            return False
+        return any(
+            isinstance(target, ast.Name) and target.id.isupper() and len(target.id) > 1
+            for target in targets
+        )
+
     def visit_Constant(self, node: ast.Constant) -> None:
         """Visit a Constant node and check if it's a numeric literal.
 
